@@ -26,8 +26,10 @@ pub struct FnSpec {
     pub loops_cond: BTreeMap<usize, String>,
     pub loop_start: BTreeMap<usize, String>,
     pub loop_end: BTreeMap<usize, String>,
+    pub before_loop: BTreeMap<usize, String>, // spliced right before the `while` / `loop` statement of loop N
     pub outline_exprs: Vec<(String, String)>,
     pub dead_conds: Vec<(String, String)>,
+    pub dead_arms: Vec<(String, String)>, // (feature or -, match-arm pattern with digits dropped) arm proved unreachable
     pub dead_else: Vec<(String, String)>, // (feature or -, normalised `if` condition whose then-branch is proved unreachable)
     pub no_autopost: bool,
     pub cfg: Option<String>,
@@ -155,6 +157,7 @@ pub fn parse_unit(text: &str) -> Unit {
             s if s.starts_with("arm-start ") => spec.arm_start.last_mut().unwrap().1.push_str(&l),
             "before-continue" => spec.before_continue.push_str(&l),
             s if s.starts_with("loop-start ") => { let n: usize = s[11..].trim().parse().unwrap(); spec.loop_start.entry(n).or_default().push_str(&l) }
+            s if s.starts_with("before-loop ") => { let n: usize = s[12..].trim().parse().unwrap(); spec.before_loop.entry(n).or_default().push_str(&l) }
             s if s.starts_with("loop-end ") => { let n: usize = s[9..].trim().parse().unwrap(); spec.loop_end.entry(n).or_default().push_str(&l) }
             s if s.starts_with("loop ") => { let n: usize = s[5..].trim().split_whitespace().next().unwrap().parse().unwrap(); spec.loops.entry(n).or_default().push_str(&l) }
             _ => panic!("unknown section {}", sec),
@@ -241,9 +244,10 @@ pub fn parse_unit(text: &str) -> Unit {
             "before-continue" => { section = Some("before-continue".to_string()); }
             "after-let" => { u.fns.get_mut(cur_fn.as_ref().unwrap()).unwrap().after_let.push((norm(rest), String::new())); section = Some(line.to_string()); }
             "outline-expr" => { let (a, b) = rest.split_once("=>").expect("outline-expr A => B"); u.fns.get_mut(cur_fn.as_ref().unwrap()).unwrap().outline_exprs.push((norm(a), b.trim().to_string())); }
+            "dead-arm" => { let (f, c) = rest.trim().split_once(' ').unwrap(); u.fns.get_mut(cur_fn.as_ref().unwrap()).unwrap().dead_arms.push((f.to_string(), norm(c).chars().filter(|ch| !ch.is_ascii_digit()).collect())); }
             "dead-else" => { let (f, c) = rest.trim().split_once(' ').unwrap(); u.fns.get_mut(cur_fn.as_ref().unwrap()).unwrap().dead_else.push((f.to_string(), norm(c))); }
             "dead-branch" => { let (f, c) = rest.trim().split_once(' ').unwrap(); u.fns.get_mut(cur_fn.as_ref().unwrap()).unwrap().dead_conds.push((f.to_string(), norm(c))); }
-            "loop-start" | "loop-end" => { section = Some(line.trim().to_string()); }
+            "loop-start" | "loop-end" | "before-loop" => { section = Some(line.trim().to_string()); }
             "requires" | "ensures" | "decreases" | "start" | "return" | "attrs" | "loop" => {
                 section = Some(if kw == "loop" { line.trim().to_string() } else { kw.to_string() });
                 if kw == "loop" { let mut it = rest.split_whitespace(); let n: usize = it.next().unwrap().parse().unwrap(); if it.next() == Some("if") { let c = it.next().unwrap().to_string(); u.fns.get_mut(cur_fn.as_ref().unwrap()).unwrap().loops_cond.insert(n, c); } }
